@@ -1,6 +1,6 @@
 """C08: arming and cancelling of the sync engine's `after` timers (bookkeeping)."""
-from pyvc.sorts import BOOL, INT, STR, OPAQUE, ListSort
-from specs.xsm import Node, Ev
+from pyvc.sorts import BOOL, INT, STR, OPAQUE, ListSort, MapSort, OptSort
+from specs.xsm import Node, Ev, Trans, Inv, Callable_
 
 SI = "xstate_statemachine.sync_interpreter:SyncInterpreter."
 AE = "self._after_events"
@@ -42,3 +42,61 @@ def register(w):
             "forall[Flag](lambda f: implies(old(f.is_set), f.is_set))",
             f"forall[Flag](lambda f: implies(f.is_set and not old(f.is_set), exists[int](lambda j: 0 <= j and j < _i and old({AE})[to_cancel[j]] == f)))",
         ])
+
+    BI = "xstate_statemachine.base_interpreter:BaseInterpreter."
+    Q, ACC = "self._event_queue", "self.g_accepted"
+    APP = f"appended_only(old({Q}), old({ACC}), {Q}, {ACC})"
+
+    @w.contract(BI + "_resolve_delay", props=["C08"])
+    def _(c):
+        c.trusted = ("assumed total and effect-free (A-user): a number, a named delay from MachineLogic.delays or a callable of {context, event} "
+                     "is resolved to milliseconds, None when it cannot be; bounded.c08 scenarios `named` / `computed`")
+        c.no_runtime = True
+        c.param("spec", OPAQUE).param("event", OPAQUE).returns(OptSort(OPAQUE))
+        c.ens("(result != None) == rdelay_ok(spec, self.context)")
+
+    @w.contract(SI + "_invoke_service", also=["xstate_statemachine.interpreter:Interpreter._invoke_service"], props=["C09"])
+    def _(c):
+        c.trusted = ("assumed: starts one service for the invocation (sync: runs it and sends done.invoke / error.platform through send(), "
+                     "append-only while processing; async: creates a task); never touches the after-timer table; bounded.c09")
+        c.no_runtime = True
+        c.param("invocation", Inv).param("service", OPAQUE).param("owner_id", STR)
+        c.mod("self._actors", "self._scheduled_sends", "self._pending_send_cancels", Q, ACC, "self.context")
+        c.ens(APP, label="ghost:queue-append-only")
+        c.may_raise("Exception", ensures=["ghost:" + APP])
+
+    @w.contract(BI + "_schedule_state_tasks", props=["C08", "C09"])
+    def _(c):
+        c.no_runtime = True
+        c.param("state", Node)
+        c.mod(AE, "self._after_threads", "self._actors", "self._scheduled_sends", "self._pending_send_cancels", Q, ACC, "self.context")
+        c.req("state != None")
+        # several delays on one state (and those of other states) are independent: arming never touches an existing timer
+        c.ens(f"forall[str](lambda k: implies(k in old({AE}), k in {AE} and {AE}[k] == old({AE})[k]))", label="existing-timers-untouched")
+        c.ens(f"forall[str](lambda k: implies(k in {AE} and not (k in old({AE})), k.startswith(state.id + '::') and not {AE}[k].is_set))",
+              label="new-timers-are-owned-by-the-state-and-armed")
+        # one timer per after-transition whose delay resolves, none otherwise; one service start per invocation
+        c.ghost("narmed", INT, init="0")
+        c.ghost("armed", MapSort(Trans, BOOL))
+        c.after("self._after_timer(delay_sec, after_event, owner_id=state.id)", "narmed = narmed + 1", "armed = store(armed, t_def, True)")
+        c.ens(f"len({AE}) == len(old({AE})) + final_narmed", label="ghost:one-table-entry-per-armed-timer")
+        c.ens("forall[Opaque, int](lambda k, i: implies(k in state.after and 0 <= i and i < len(state.after[k]) and rdelay_ok(k, old(self.context)), final_armed[state.after[k][i]]))",
+              label="ghost:every-after-transition-with-a-resolvable-delay-is-armed")
+        c.ghost("nstarted", INT, init="0")
+        c.after("self._invoke_service(invocation, service_callable, owner_id=state.id)", "nstarted = nstarted + 1")
+        c.ens("final_nstarted == len(state.invoke)", label="ghost:every-invocation-is-started-once")
+        c.ens(APP, label="ghost:queue-append-only")
+        UNT = f"forall[str](lambda k: implies(k in old({AE}), k in {AE} and {AE}[k] == old({AE})[k]))"
+        OWN = f"forall[str](lambda k: implies(k in {AE} and not (k in old({AE})), k.startswith(state.id + '::') and not {AE}[k].is_set))"
+        CNT = f"len({AE}) == len(old({AE})) + narmed"
+        KS = "keys(state.after)"
+        DONEK = f"forall[int, int](lambda j, i: implies(0 <= j and j < _i0 and 0 <= i and i < len(state.after[{KS}[j]]) and rdelay_ok({KS}[j], self.context), armed[state.after[{KS}[j]][i]]))"
+        c.loop(0, inv=[UNT, OWN, CNT, DONEK.replace("_i0", "_i"), APP, "nstarted == 0", "same(self.context, old(self.context))"])
+        c.loop(1, inv=[UNT, OWN, CNT, DONEK, APP, "nstarted == 0", "same(self.context, old(self.context))", "resolved_ms != None",
+                       "forall[int](lambda i: implies(0 <= i and i < _i, armed[transitions[i]]))"])
+        ALLK = f"forall[int, int](lambda j, i: implies(0 <= j and j < len(state.after) and 0 <= i and i < len(state.after[{KS}[j]]) and rdelay_ok({KS}[j], old(self.context)), armed[state.after[{KS}[j]][i]]))"
+        c.loop(2, inv=[UNT, OWN, CNT, ALLK, APP, "nstarted == _i"])
+        c.may_raise("ImplementationMissingError", ensures=["ghost:" + APP,
+                    ("existing-timers-untouched", f"forall[str](lambda k: implies(k in old({AE}), k in {AE} and {AE}[k] == old({AE})[k]))")])
+        c.may_raise("Exception", ensures=["ghost:" + APP,
+                    ("existing-timers-untouched", f"forall[str](lambda k: implies(k in old({AE}), k in {AE} and {AE}[k] == old({AE})[k]))")])
